@@ -732,9 +732,12 @@ Definition next_timer_to_poll (s : vsock) : vsock * option Z :=
           (opt_min (v_t_inactivity s)
              (opt_min (v_t_recovery_pipe s) (v_t_syn_ack_resend s))))).
 
+(* (repair of D6, second part) an unacknowledged MTU probe counts as unsent data: our FIN is not numbered behind it *)
 Definition unsent_data_exists (s : vsock) : bool :=
   (0 <? v_unsegmented s) ||
-  existsb (fun f => seg_send_count (fs_seg f) =? 0) (iter_for_sending (v_segs s) None).
+  existsb (fun f => (seg_send_count (fs_seg f) =? 0) ||
+                    (sg_probe (fs_seg f) && negb (sg_delivered (fs_seg f))))
+          (iter_for_sending (v_segs s) None).
 
 (* ------------------------------------------------------------------ poll *)
 Inductive body_res :=
